@@ -1,7 +1,7 @@
 (* Correspondence checker for C18: the model (model/Forwarder.v, events are integers) is run on the
    event script the harness drove the real forwarder worker through; the model's trace is compared
    with what the scripted server, the recording sink and the storage observed. *)
-From LR Require Export lib.Base model.Forwarder.
+From LR Require Export lib.Base model.Forwarder model.SyslogSink.
 
 Definition obs_eqb (a b : obs Z) : bool :=
   match a, b with
@@ -15,12 +15,26 @@ Definition obs_eqb (a b : obs Z) : bool :=
   | _, _ => false
   end.
 
+(* the real syslog sink on a scripted connection: the first connection takes q0 lines, every reconnect consults dials;
+   the batches are handed to OnEvent one after the other; oks = what each call returned (true = nil), conns = the
+   event ids each connection received, in the order the connections were made *)
+Fixpoint sink_calls (l : lg Z) (batches : list (list Z)) : lg Z * list bool :=
+  match batches with
+  | [] => (l, [])
+  | b :: tl => let '(l1, ok) := on_event code_stops_at_first_error l b true in
+               let '(l2, oks) := sink_calls l1 tl in (l2, ok :: oks)
+  end.
+
 Inductive case :=
-| KRun (evs : list (ev Z)) (observed : list (obs Z)).
+| KRun (evs : list (ev Z)) (observed : list (obs Z))
+| KSink (q0 : option nat) (dials : list (option (option nat))) (batches : list (list Z)) (oks : list bool) (conns : list (list Z)).
 
 Definition check (c : case) : bool :=
   match c with
   | KRun evs observed => list_eqb obs_eqb (trace evs) observed
+  | KSink q0 dials batches oks conns =>
+      let '(l, oks') := sink_calls (mkLg (Some q0) dials [[]]) batches in
+      list_eqb Bool.eqb oks' oks && list_eqb (list_eqb Z.eqb) (rev (l_recv l)) conns
   end.
 
 Definition mismatches (l : list case) : list nat := mismatches_of check l.
